@@ -86,7 +86,7 @@ def main(argv):
             t0 = time.time()
             rc, o = sh([os.path.join(VERIF, 'check'), chk, 'quick'],
                        env=dict(os.environ, VERIF_REPO=wt, VERIF_NO_CONFIRM='1', VERIF_NO_EVIDENCE='1'), timeout=7200)
-            sigs = [l.split('signature=')[1].split(' ')[0] for l in o.splitlines() if 'signature=' in l]
+            sigs = [l.split('signature=')[1].split(' ')[0] for l in o.splitlines() if l.strip().startswith('signature=')]
             verdict = 'DETECTED' if rc == 1 and 'VIOLATION property=%s' % chk in o else 'silent' if rc == 0 else 'rc=%d' % rc
             print('check %s quick: %s (%.0fs) %s' % (chk, verdict, time.time() - t0, sigs[:4]))
             if verdict.startswith('rc='):
